@@ -249,7 +249,7 @@ func main() {
 	r = explore.Start("C03")
 	its := items()
 	if r.Replay != "" {
-		r.Fault("replay: inject detail.bytes through a fake console after start-up; not implemented")
+		r.ReplayBySearch()
 	}
 	if idx, n, arg, ok := r.Worker(); ok {
 		r.Watchdog(30 * time.Second)
